@@ -530,8 +530,8 @@ def run(ctx: Any) -> None:
     ctx.require("tables", "telegrams_fed", "telegrams_seen_by_callbacks", "decoded_data_correct", "decoded_data_none_as_expected", "device_states_compared",
                 "device_states_compared_decoded", "device_states_equal", "final_device_states_compared", "telegrams_table_same", "telegrams_table_related",
                 "telegrams_table_unrelated", "telegrams_table_no-entry", "table_entries_matching", "table_entries_sub-or-superclass", "table_entries_invalid-spec")
-    cases = ctx.scale(6, 320)
-    n = ctx.scale(250, 300)
+    cases = ctx.scale(8, 320)
+    n = ctx.scale(260, 300)
     for case in range(cases):
         if ctx.mine(case):
             shadow_run(ctx, case, n)
